@@ -70,11 +70,11 @@ def sim_jobs(unames, reals, *, num, depth, seed, opts=None, **kw):
     return results, jobs
 
 
-def history_sims(rep, rng, quick, *, props, reals=("poly-frac", "poly-float"), c10=False):
+def history_sims(rep, rng, quick, *, props, reals=("poly-frac", "poly-float"), c10=False, num=None):
     """histories in which objects are moved far away and back between queries and operators
     (far-apart frames of ShapeSys): stale position-dependent caches show up as wrong answers"""
     sims, jobs = sim_jobs(["U2nest", "U2cross"] if quick else ["U2nest", "U2cross", "U2notch", "U3hole"], list(reals),
-                          num=700 if quick else 3000, depth=10, seed=runner.seed() + 21, opts={"check_c10": c10},
+                          num=(num or 400) if quick else 3000, depth=10, seed=runner.seed() + 21, opts={"check_c10": c10},
                           acts=("mkreg", "transform", "query", "bin"), gens=("f1", "F1", "r1"), maxframe=4, regs=2, maxobj=5,
                           constraint="HistDomain", tag="MCSIM_hist")
     for un, r in sims:
@@ -207,9 +207,10 @@ def check_C01(tier, rng, rep):
     jobs = []
     o = {"check_c10": False}
     if quick:
-        jobs += pair_jobs(U2, lambda k: [(POLY + ["sim-mmu-float"])[k % 4]], rng, per_universe=110, opts=o)
+        jobs += pair_jobs(U2, lambda k: [POLY[k % 3]], rng, per_universe=70, opts=o)
+        jobs += pair_jobs(U2, ["sim-mmu-float"], rng, per_universe=20, classes=("T",), opts=o)
         jobs += pair_jobs(U2, lambda k: [CURVED[k % 3]], rng, per_universe=30, classes=("T",), opts=o)
-        jobs += pair_jobs(U3, lambda k: [(POLY + CURVED)[k % 6]], rng, per_universe=120, classes=("T",), opts=o)
+        jobs += pair_jobs(U3, lambda k: [(POLY + CURVED)[k % 6]], rng, per_universe=80, classes=("T",), opts=o)
     else:
         jobs += pair_jobs(U2, POLY + CURVED + EXTRA, rng, opts=o)
         jobs += pair_jobs(["U3hole", "U3chain"], POLY + CURVED, rng, classes=("T",), opts=o)
@@ -225,7 +226,7 @@ def check_C01(tier, rng, rep):
         rep.add_tlc("ShapeSys-sim/" + un, r)
     res = runner.pool_map(replay.run_case, jobs)
     rep.add_results("sim", res)
-    history_sims(rep, rng, quick, props={"C01"})
+    history_sims(rep, rng, quick, props={"C01"}, num=250)
     # (d) code -> spec: recorded random programs validated by TLC
     trace_engine(rep, [rng.choice(U2[2:]), rng.choice(["U3hole", "U3chain"])] if quick else U2[2:] + U3, ["poly-frac", "poly-float"] if quick else POLY + CURVED[:2],
                  ntr=16 if quick else 60, nsteps=10, acts_for_prop={"Bin", "Inv"}, gens=(), maxframe=0)
@@ -526,7 +527,7 @@ def check_C10(tier, rng, rep):
     # within a history every deviation from the model is a dependence on earlier calls: an object
     # changed by a call on another one (C08), a stale measure after a transformation (C04/C09)
     rep.add_results("sim", res, props={"C10", "C08", "C04", "C09"})
-    history_sims(rep, rng, quick, props=ALLP | {"C10"}, c10=True)
+    history_sims(rep, rng, quick, props=ALLP | {"C10"}, c10=True, num=150)
     # the same behaviours in fresh interpreters: other hash seeds, cold and pre-warmed
     # module-level memo tables; observation logs must be identical
     sub = runner.sample(list(range(len(jobs))), 24 if quick else 120, rng)
@@ -812,7 +813,7 @@ def check_C15(tier, rng, rep):
     jobs = []
     # seeded exploration: the domain in which no finding is recorded (polygons of every numeric
     # type near and far from the origin, quadratic and mixed-degree curves)
-    reals = POLY + CURVED[:2] + ["poly-frac-dense", "quad-frac", "sim-far3-float", "sim-far6-float", "sim-x20-quad"]
+    reals = POLY + CURVED[:2] + ["poly-frac-dense", "sim-far3-float", "sim-far6-float", "sim-x20-quad"] + ([] if quick else ["quad-frac"])
     # recorded finding F-C15-clean-float-rounding: two fixed behaviours, always run
     jobs.append(("U2cross", "sim-km-quad", 10, mk_sc_behaviour(4, [[(1, (1, 2))], "clean"]), {}))
     jobs.append(("U3chain", "cubic-float", 32, mk_sc_behaviour(4, [[(2, (1, 1)), (1, (1, 3))], [(4, (1, 1)), (1, (1, 2)), (1, (1, 1))], [(6, (1, 3))], "clean"]), {}))
@@ -823,7 +824,7 @@ def check_C15(tier, rng, rep):
     for un, ns in targets:
         st = replay._tables(un)
         regs = [r for r in range(1, st.u.full) if not st.pinch(r) and st.nloops(r) == 1 and len(st.loops(r)[0]) == ns]
-        res, behs = models.splitclean_simulate(ns, num=(60 if quick else 300), depth=4, seed=runner.seed() + ns)
+        res, behs = models.splitclean_simulate(ns, num=(40 if quick else 300), depth=4, seed=runner.seed() + ns)
         # fixed behaviours: several parameters on one segment and a later segment split in the same call
         behs = [mk_sc_behaviour(ns, [[(1, (1, 3)), (1, (2, 3)), (3, (1, 2))], "clean"]),
                 mk_sc_behaviour(ns, [[(2, (1, 4)), (2, (1, 2)), (2, (3, 4)), (4, (1, 2)), (ns, (1, 3))], [(1, (1, 2))], "clean"])] + behs
